@@ -19,7 +19,7 @@ TECHNIQUE = ("runtime monitoring: icontract postconditions on the real update me
 RULE = ("seeded samples of 1-500 finite floats (offsets up to 1e9, spreads down to 1e-3, several distributions incl. "
         "constant, two-point, heavy-tailed, sorted, alternating), fed one by one / in random chunks / permuted, and read between feeds (every read-out against the exact statistics of that prefix); 2-4 "
         "correlated series for covariances; long estimate runs beyond a thousand samples, estimates interrupted by Ctrl-C; estimate_from_repeats over (rtol, tol_scale, min_samples, max_samples) "
-        "grids with constant, alternating, drifting and noisy generators; matrix chunks mixing lists and one-shot iterators in one call; silent estimates without a stderr; estimates of a decorated function; distinct by sample spec; non-trivial when n >= 2")
+        "grids with constant, alternating, drifting and noisy generators, and generators whose draws are exactly zero now and then (0/1 trials, integer counts, all zero); matrix chunks mixing lists and one-shot iterators in one call; silent estimates without a stderr; estimates of a decorated function; distinct by sample spec; non-trivial when n >= 2")
 ASSUMPTIONS = [
     "floating-point accuracy relative to the data scale: |mean - exact| <= 16(1+sqrt n) eps max|x|; "
     "|var - exact| <= 32(1+sqrt n) eps (max|x| sigma + eps max|x|^2); covariances likewise with both series' scales "
@@ -33,6 +33,7 @@ MIN_REACH = {
     "contract_evals_rs_update": {"quick": 80000, "thorough": 3000000},
     "contract_evals_rc_update": {"quick": 30000, "thorough": 500000},
     "estimate_runs": {"quick": 300, "thorough": 10000},
+    "estimate_runs_that_drew_exact_zeros": {"quick": 40, "thorough": 1200},
     "interrupted_estimates": {"quick": 10, "thorough": 150},
     "estimate_runs_beyond_1024_samples": {"quick": 3, "thorough": 30},
     "matrix_readouts_judged": {"quick": 200, "thorough": 3000},
@@ -62,7 +63,8 @@ def cases(ctx):
                "rho": rng.choice([0.0, 0.5, -0.9, 0.999, 1.0]), "sseed": rng.randint(0, 10 ** 9),
                "feed": rng.choice(["single", "chunks"])}
     for i in range(ctx.pick(400, 12000)):
-        yield {"type": "est", "gen": rng.choice(["constant", "alternating", "noisy", "noisy", "drift", "zero_mean", "big_offset"]),
+        yield {"type": "est", "gen": rng.choice(["constant", "alternating", "noisy", "noisy", "drift", "zero_mean", "big_offset",
+                                                  "bernoulli", "counts", "all_zero"]),
                "rtol": rng.choice([0.5, 0.1, 0.02, 1e-3, 1e-6, 0.0]), "tol_scale": rng.choice([1.0, 1e-3, 100.0, 0.0]),
                "min_samples": rng.choice([0, 1, 2, 5, 17]), "max_samples": rng.choice([1, 2, 3, 7, 50, 400]),
                "get": rng.choice(["stats", "samples", "samples", "mean"]), "verbosity": rng.choice([0, 0, 0, 2]),
@@ -327,6 +329,13 @@ def run_case(ctx, case):
                 x = 1.0 + 0.01 * i + sg * rng.gauss(0, 1)
             elif g == "zero_mean":
                 x = sg * rng.gauss(0, 1)
+            elif g == "bernoulli":
+                # trial outcomes: the draw is EXACTLY zero (a falsy value) now and then; it still is a sample
+                x = 1.0 if rng.random() < 0.3 else [0.0, -0.0][i % 2]
+            elif g == "counts":
+                x = rng.choice([0, 0, 1, 2, 3])            # integer counts, plain Python ints
+            elif g == "all_zero":
+                x = 0.0
             else:
                 x = 1e9 + sg * rng.gauss(0, 1)
             x *= scale
@@ -367,6 +376,7 @@ def run_case(ctx, case):
         except Exception as e:
             err = e
         ctx.count("estimate_runs")
+        ctx.count("estimate_runs_that_drew_exact_zeros", 1 if any(x == 0 for x in calls) else 0)
         if case.get("long"):
             ctx.count("estimate_runs_beyond_1024_samples", 1 if len(calls) > 1024 else 0)
         if err is not None:
